@@ -471,6 +471,24 @@ def grp_unary(cx, tier):
 
             cx.ob("C17.O2", "sym %s" % tag, "sym == (A + A^T)/2", wrap(c_sym))
             cx.ob("C17.O2", "sym out= %s" % tag, "sym into a reused buffer", wrap(lambda: c_sym(out=symarray("DIRTY", (dims, dims) + bs))))
+
+            def c_sym_inplace():
+                # the library symmetrises gradients in place: symmetric(g, out=g)
+                want = (A + ref_einsum("ij->ji", A)) * Fraction(1, 2)
+                A2 = A.copy()
+                return differs(cx.call("sym", A2, out=A2), want)
+
+            cx.ob("C17.O2", "sym in place %s" % tag, "sym(A, out=A) (the output buffer is the input itself, as Field.grad(sym=True) calls it) == (A + A^T)/2", wrap(c_sym_inplace))
+
+            def c_dev_inplace():
+                tr = ref_einsum("ii->", A)
+                want = A.copy()
+                for i in range(dims):
+                    want[i, i] = want[i, i] - tr * Fraction(1, dims)
+                A2 = A.copy()
+                return differs(cx.call("dev", A2, out=A2), want)
+
+            cx.ob("C17.O2", "dev in place %s" % tag, "dev(A, out=A) == A - trace(A)/dim * 1", wrap(c_dev_inplace))
             for strain in (False, True):
                 def c_voigt(strain=strain):
                     ij = {1: [(0, 0)], 2: [(0, 0), (1, 1), (0, 1)], 3: [(0, 0), (1, 1), (2, 2), (0, 1), (1, 2), (0, 2)]}[dims]
